@@ -253,8 +253,21 @@ func stcLine(g, k int, seed uint64) {
 	rng := vh.NewRng(seed)
 	plan := make([][]stOp, g)
 	for i := range plan {
+		last := map[[2]int]string{} // what this goroutine stored last under a key
 		for j := 0; j < k; j++ { // unique tags: every Get names the Store it saw
-			plan[i] = append(plan[i], randOp(rng, func() string { return fmt.Sprintf("g%d.%d", i, j) }))
+			op := randOp(rng, func() string { return fmt.Sprintf("g%d.%d", i, j) })
+			key := [2]int{b2i(op.byType), op.key}
+			switch op.kind {
+			case 0:
+				last[key] = op.tag
+			case 3:
+				// DeleteIf names a transaction this goroutine stored itself (a finished transaction's
+				// clean-up), while other goroutines store under the same key: compare-and-delete must be atomic
+				if t, ok := last[key]; ok {
+					op.tag = t
+				}
+			}
+			plan[i] = append(plan[i], op)
 		}
 	}
 	ts := transactions.NewTransactionStore()
@@ -290,6 +303,49 @@ func stcLines(rng *vh.Rng) {
 	}
 }
 
+// stdLine: the situation DeleteIf exists for, as a targeted race: a finished transaction's
+// clean-up (DeleteIf(k, old)) runs while another goroutine stores a new transaction under the same
+// key.  Whatever the order, an atomic map holds the new transaction afterwards.
+func stdLine(rounds int) {
+	lost := 0
+	for r := 0; r < rounds; r++ {
+		ts := transactions.NewTransactionStore()
+		old, neu := txn{"old"}, txn{"new"}
+		for k := uint16(1); k <= 8; k++ {
+			ts.Store(k, old)
+		}
+		var ready, wg sync.WaitGroup
+		start := make(chan struct{})
+		ready.Add(2)
+		wg.Add(2)
+		go func() {
+			defer wg.Done()
+			ready.Done()
+			<-start
+			for k := uint16(1); k <= 8; k++ {
+				ts.DeleteIf(k, old)
+			}
+		}()
+		go func() {
+			defer wg.Done()
+			ready.Done()
+			<-start
+			for k := uint16(1); k <= 8; k++ {
+				ts.Store(k, neu)
+			}
+		}()
+		ready.Wait()
+		close(start)
+		wg.Wait()
+		for k := uint16(1); k <= 8; k++ {
+			if t, ok := ts.Get(k); !ok || t.(txn).tag != "new" {
+				lost++
+			}
+		}
+	}
+	fmt.Fprintf(w, "STD rounds=%d lost=%d\n", rounds, lost)
+}
+
 func main() {
 	flag.Parse()
 	defer w.Flush()
@@ -298,4 +354,5 @@ func main() {
 	qcLines()
 	stLines(rng)
 	stcLines(rng)
+	stdLine(60 * *nFlag)
 }
